@@ -410,6 +410,9 @@ def cases(tier, seed):
                     out.append({'op': op, 'r': r, 'c': k, 'bits': 2, 'axis': axis, 'rbits': 5})
                 if op in ('min', 'max'):
                     out.append({'op': op, 'r': r, 'c': k, 'bits': 2, 'axis': axis, 'rbits': 5})
+                    # a result narrower than the elements: the value is truncated once, at the end
+                    out.append({'op': op, 'r': r, 'c': k, 'bits': 4, 'axis': axis, 'rbits': 3})
+                    out.append({'op': op, 'r': r, 'c': k, 'bits': 3, 'axis': axis, 'rbits': 1})
         for order in 'CF':
             out.append({'op': 'flatten', 'r': r, 'c': k, 'bits': 3, 'order': order})
             for shape in (-1, r * k, [k, r], [-1, r], [k, -1], [[k, r]], [r * k, 1]):
@@ -454,6 +457,14 @@ def cases(tier, seed):
         out.append({'op': 'matmul', 'r': r, 'c': k, 'bits': b1, 'r2': r2, 'c2': k2, 'bits2': b2})
         out.append({'op': 'dot', 'r': r, 'c': k, 'bits': b1, 'r2': r2, 'c2': k2, 'bits2': b2})
     out.append({'op': 'matmul', 'r': 2, 'c': 2, 'bits': 3, 'r2': 2, 'c2': 2, 'bits2': 3, 'max_bits': 5})
+    # wide single products: the final carry-propagate adder of the fused multiply-add gets a non-power-of-two width and long
+    # carry chains (only a handful of the 2^16 operand pairs of an 8x8-bit product exercise its last prefix level)
+    for b1, b2 in ((5, 5), (6, 7), (8, 8), (7, 3)):
+        out.append({'op': 'matmul', 'r': 1, 'c': 1, 'bits': b1, 'r2': 1, 'c2': 1, 'bits2': b2})
+    out.append({'op': 'matmul', 'r': 2, 'c': 1, 'bits': 8, 'r2': 1, 'c2': 2, 'bits2': 8})
+    out.append({'op': 'dot', 'r': 1, 'c': 1, 'bits': 8, 'r2': 1, 'c2': 1, 'bits2': 8})
+    out.append({'op': 'pow', 'r': 1, 'c': 1, 'bits': 8, 'p': 2})
+    out.append({'op': 'matmul', 'r': 1, 'c': 2, 'bits': 4, 'r2': 2, 'c2': 1, 'bits2': 4, 'max_bits': 7})
     for (r, k) in ((2, 2), (1, 3)):
         for op, extra in (('pow', {'p': 1}), ('pow', {'p': 0}), ('pow', {'p': 2}), ('transpose', {}), ('copy', {}), ('reversed', {}),
                           ('flatten', {'order': 'C'}), ('reshape', {'shape': -1, 'order': 'C'}), ('getitem', {'key': [None, None]}),
